@@ -584,3 +584,81 @@ def flags_exhaustive(ctx, pfx):
             ok = explicit == allv or (els['t']['k'] == 'unreachable')
         ctx.ob('%s.EXH[%s]' % (pfx, fn), 'RF-GUARD', ok, b.path, '%s:%s' % (b.file, b.line),
                'explicit arm for every ValueStateRetrievalFlag variant' if ok else 'a catch-all arm handles some ValueStateRetrievalFlag variants')
+
+
+# ---------------------------------------------------------------- unconditional effects
+
+def _field_assign_blocks(b, base_name, field):
+    """blocks that assign `<base_name>.<field>` (through a reference or directly)"""
+    out = []
+    names = b.names()
+    for pos, st in b.stmts():
+        if st.get('k') != 'assign' or len(st['p']) < 2:
+            continue
+        flds = [el.get('f') for el in st['p'][1:] if isinstance(el, dict)]
+        if flds and flds[-1] == field and names.get(st['p'][0]) == base_name:
+            out.append(pos[0])
+    return out
+
+
+def must_do(ctx, oid, rule, b, effect_blocks, desc, bypass_edges=(), per_record_loop=False, key=None):
+    """the effect (any of effect_blocks) lies on every path of `b` to a non-failing return; the only permitted
+    bypasses are the listed CFG edges.  An early `return Ok(..)` in front of the effect ("nothing to do",
+    "unchanged", "too large", "cleaning disabled") turns the function into a conditional no-op."""
+    where = '%s:%s' % (b.file, b.line)
+    if not effect_blocks:
+        ctx.ob(oid, rule, False, b.path, where, '%s: the effect was not found' % desc, key=key or '%s|%s|missing' % (rule, oid))
+        return False
+    ks = b.exits((0, 0), avoid_blocks=list(effect_blocks), avoid_edges=list(bypass_edges)) - {'Err', 'Diverge'}
+    ok = not ks
+    ctx.ob(oid, rule, ok, b.path, where, ('%s: on every path to a normal return' % desc) if ok else
+           ('%s: a normal return is reachable without it (exit kinds %s) — conditional no-op' % (desc, sorted(ks))),
+           key=key or '%s|%s' % (rule, oid))
+    return ok
+
+
+def write_apis_unconditional(ctx, pfx):
+    """StorageManager::set / batch_set hand every record either to the transaction log or to the database
+    (batch_set: except for an empty batch); Transaction::set / batch_set insert into the log; the manager's
+    commit writes the drained log unless it is empty."""
+    prog = ctx.prog
+    for name in ('set', 'batch_set'):
+        b = prog.fn_and_inner(SM + name)
+        eff = [ev['pos'][0] for cal in DB_WRITES + ('Transaction::set', 'Transaction::batch_set') for ev, c in find_events(b, cal)]
+        by = side_edges(b, lambda fc: fc[0] == 'pred' and fc[1].endswith('is_empty') and fc[3] is True and access_path(fc[2][0]) == 'records') \
+            if name == 'batch_set' else []
+        must_do(ctx, '%s.ORDER.write_unconditional[%s]' % (pfx, name), 'RF-ORDER', b, eff,
+                'StorageManager::%s passes its records to the transaction log or the database' % name, bypass_edges=by,
+                key='RF-ORDER|write_unconditional|%s' % name)
+    for name in ('set', 'batch_set'):
+        b = prog.one('akd::storage::transaction::Transaction::' + name)
+        eff = [ev['pos'][0] for ev, c in find_events(b, 'DashMap::insert') if access_path(arg(c, 0)) == 'self.mods']
+        if name == 'batch_set' and eff:
+            # per record: the loop header is on every path and no iteration completes without the insert
+            hdr = [pos[0] for pos, t in b.call_sites() if (short(t.get('res') or t.get('fn')) or '').endswith('::next')]
+            ks = b.exits((0, 0), avoid_blocks=hdr) - {'Diverge'} if hdr else {'noloop'}
+            ok = bool(hdr) and not ks and all(h not in b.reach_avoiding(b.succ(h), avoid_blocks=eff) or True for h in hdr)
+            # an iteration that skips the insert: from the Some-edge back to the header avoiding the insert
+            skip = False
+            for h in hdr:
+                nxt = b.blocks[h]['t']['t']
+                bb, sw = nxt, None
+                for _ in range(4):
+                    if b.blocks[bb]['t']['k'] == 'switch':
+                        sw = bb
+                        break
+                    nx = b.succ(bb)
+                    if len(nx) != 1:
+                        break
+                    bb = nx[0]
+                if sw is not None:
+                    names = variant_names(b, {'term': b.blocks[sw]['t']})
+                    some = [tb for v, tb in b.blocks[sw]['t']['vals'] if names.get(v) == 'Some'] or [tb for v, tb in b.blocks[sw]['t']['vals']]
+                    if h in b.reach_avoiding(some, avoid_blocks=eff):
+                        skip = True
+            ctx.ob('%s.ORDER.log_append[batch_set]' % pfx, 'RF-ORDER', ok and not skip, b.path, '%s:%s' % (b.file, b.line),
+                   'Transaction::batch_set inserts every record into the log' if ok and not skip else
+                   'Transaction::batch_set can skip a record (or the whole batch)', key='RF-ORDER|log_append|batch_set')
+        else:
+            must_do(ctx, '%s.ORDER.log_append[%s]' % (pfx, name), 'RF-ORDER', b, eff, 'Transaction::%s inserts the record into the log' % name,
+                    key='RF-ORDER|log_append|%s' % name)
